@@ -125,6 +125,10 @@ class ProtoExporter:
 
         # Create its serialized name
         pmod.name = self.export_module_name(module)
+        # Claim that name right away. The modules instantiated below are exported before this one is complete,
+        # and must not be given the same name.
+        mapping = ModuleMapping(module, pmod)
+        self.modules_by_name[pmod.name] = mapping
 
         # Create its Signal-objects, which include the hdl21.Module's Ports
         for sig in list(module.signals.values()) + list(module.ports.values()):
@@ -148,9 +152,7 @@ class ProtoExporter:
             pmod.literals.append(export_literal(literal))
 
         # Store references to the result, and return it
-        mapping = ModuleMapping(module, pmod)
         self.modules_by_id[id(module)] = mapping
-        self.modules_by_name[pmod.name] = mapping
         self.pkg.modules.append(pmod)
         return pmod
 
